@@ -724,6 +724,8 @@ def frag_gate_socket():
             self.delivered = []
             self.asked = []
             self.parked = threading.Event()
+            self.idle_eagain = False      # report "nothing pending" as socket.error(EAGAIN) instead of socket.timeout
+            self.idle_polls = 0
 
         def close_gate(self, limit=20):
             """close the gate and wait until the reader has run into it: a recv() that was already waiting inside
@@ -750,7 +752,15 @@ def frag_gate_socket():
                 raise socket.timeout
             if self.script:          # a script installed while we were waiting at the gate comes first
                 return self.recv(n)
-            return super().recv(n)
+            try:
+                return super().recv(n)
+            except socket.timeout:
+                self.idle_polls += 1
+                if self.idle_eagain:
+                    import errno
+
+                    raise OSError(errno.EAGAIN, "Resource temporarily unavailable")
+                raise
 
     return FragGate()
 
@@ -1128,6 +1138,31 @@ def recv_sends_every_computed_ack():
     return ok and found >= 2
 
 
+def read_all_idle_branches_share_rekey_test():
+    """AST of Packetizer.read_all: the `raise NeedRekeyException` is not written into an individual `except` clause;
+    it follows the `try` statement (the got_timeout pattern), so `socket.timeout` and `socket.error(EAGAIN)` reach the
+    same test — or, if it is written into handlers, every handler has it.  None if unreadable."""
+    import paramiko.packet as P
+
+    try:
+        tree = ast.parse(textwrap.dedent(inspect.getsource(P.Packetizer.read_all)))
+    except (OSError, SyntaxError):
+        return None
+
+    def raises_rekey(node):
+        return any(isinstance(x, ast.Raise) and x.exc is not None and any(
+            isinstance(y, ast.Name) and y.id == "NeedRekeyException" for y in ast.walk(x.exc)) for x in ast.walk(node))
+
+    tries = [n for n in ast.walk(tree) if isinstance(n, ast.Try)]
+    if not tries or not raises_rekey(tree):
+        return None
+    t = tries[0]
+    in_handlers = [raises_rekey(h) for h in t.handlers]
+    if any(in_handlers):
+        return all(in_handlers)
+    return True
+
+
 def overflow_test_facts():
     """From the AST of Packetizer.read_message: inside `if self.__need_rekey:` the test that raises "ignoring rekey
     requests" compares which counters with which limits?  Returns [(counter attribute, limit attribute)] (names
@@ -1190,6 +1225,8 @@ def lean_channel_table(sites, takes, handlers, gate):
         "def recvSendsEveryComputedAck : Bool := %s\n\n"
         "/-- Transport._send_user_message: the give-up test reads the clock (`time.time() > start + timeout`) -/\n"
         "def sendTimeoutReadsClock : Bool := %s\n\n"
+        "/-- Packetizer.read_all: socket.timeout and socket.error(EAGAIN) reach one and the same NeedRekeyException test -/\n"
+        "def readAllIdleBranchesShareRekeyTest : Bool := %s\n\n"
         "end PV.Generated.C11\n" % (rows, hrows, "true" if gate["rechecks_under_lock"] else "false",
                                       "true" if gate["clears_before_write"] else "false",
                                       ", ".join('("%s", "%s")' % p for p in (gate.get("overflow_tests") or [])),
@@ -1198,7 +1235,8 @@ def lean_channel_table(sites, takes, handlers, gate):
                                       "true" if gate.get("newkeys_keeps_auth_handler") else "false",
                                       "true" if gate.get("keepalive_guard") else "false",
                                       "true" if gate.get("recv_sends_every_ack") else "false",
-                                      "true" if gate.get("send_timeout_reads_clock") else "false")
+                                      "true" if gate.get("send_timeout_reads_clock") else "false",
+                                      "true" if gate.get("read_all_idle_shared") else "false")
     )
 
 
@@ -1214,6 +1252,7 @@ def write_generated_c11(ctx):
     gate["keepalive_guard"] = keepalive_silent_while_rekey_pending()
     gate["recv_sends_every_ack"] = recv_sends_every_computed_ack()
     gate["send_timeout_reads_clock"] = send_timeout_reads_clock()
+    gate["read_all_idle_shared"] = read_all_idle_branches_share_rekey_test()
     ctx.extra["send_gate_facts"] = gate
     ctx.write_generated("C11", lean_channel_table(sites, takes, handlers, gate))
     return sites, takes, handlers
